@@ -15,11 +15,17 @@ git index), executed on the real tree and replayed on the Lean step machine
 step both sides are compared on: outcome (ok / error), all versioned paths with
 kind, file text / symlink target and executable bit, and the canonical status
 against the basis (bzr: iter_changes records without ids, i.e. renames keep
-their identity; git: path-space added / removed / modified).  The model's own
+their identity; git: path-space added / removed / modified).  One tree object is
+kept alive across the whole sequence (re-opened only by the occasional `reopen`
+op); names vacated by earlier renames / removals are reused on purpose.  The model's own
 invariant (disk tree, basis and working tree well-formed) is evaluated by the
 driver after every step.
 Oracle (independent of the model, on the real tree): an operation that raises
-leaves listing, status and the directory contents unchanged; after commit the
+leaves listing, status and the directory contents unchanged; after EVERY step, for
+every path the sequence has touched (present or just vacated, parents included),
+is_versioned / path2id / stored_kind of the live tree object agree with
+all_versioned_paths and with a freshly opened tree ("re-open is the identity on
+every query"); after commit the
 status is empty; after revert the listing equals the listing at the last
 commit and the status is empty; re-opening changes nothing; the status is sound
 and complete with respect to the listings (the paths whose entry differs
@@ -44,6 +50,9 @@ sequences stay in corpus/C09 and run first):
  5189316 git rename_one of a path that does not exist onto an unversioned file versioned the file
 
 Mutants tried (scratch worktree, known findings treated as known):
+ s1 (seeded by the coordinator) git rename_one keeps stale `_versioned_dirs` cache entries: live is_versioned('d') /
+    path2id / stored_kind say "directory" after the rename, a re-opened tree says gone -> oracle (reopen-query), every seed,
+    minimal ['mkfile:c', 'add:c', 'rename:c:d']; pinned in corpus/C09/git-versioned-dirs-cache-after-rename.json
  f1/f2/f3 each of the three fix: commits reverted                                  -> oracle, minimal sequences (see report)
  m2 InventoryWorkingTree._move_entry: inv.rename(..., entry.from_tail)             -> oracle (error not atomic / status)
  m4 MutableGitIndexTree.rename_one: index entry of the old path kept               -> oracle (status vs listing) + T2
@@ -163,6 +172,32 @@ class Real:
             basis = wt.basis_tree()
             with basis.lock_read():
                 return [(c.path, c.changed_content, c.versioned, c.kind, c.executable) for c in wt.iter_changes(basis)]
+
+    def queries(self, paths, fresh=False):
+        """is_versioned / path2id / stored kind for every given path, on the live tree
+        object or on a freshly opened one"""
+        from breezy.workingtree import WorkingTree
+        wt = WorkingTree.open(self.base) if fresh else self.wt
+        out = {}
+        with wt.lock_read():
+            for p in paths:
+                q = "" if p == "." else p
+                try:
+                    v = bool(wt.is_versioned(q))
+                except Exception as e:
+                    v = "!" + type(e).__name__
+                try:
+                    i = wt.path2id(q) is not None
+                except Exception as e:
+                    i = "!" + type(e).__name__
+                k = None
+                if v is True:
+                    try:
+                        k = wt.stored_kind(q)
+                    except Exception as e:
+                        k = "!" + type(e).__name__
+                out[p] = (v, i, k)
+        return out
 
     def disk(self):
         out = []
@@ -319,7 +354,7 @@ def enc_op(op):
 # --------------------------------------------------------------------------
 # adaptive generator
 
-def gen_op(rng, listing, disk):
+def gen_op(rng, listing, disk, vacated=()):
     ver = {l.split("|")[0]: l.split("|")[1] for l in listing}
     ver_paths = sorted(p for p in ver if p != ".")
     ver_dirs = sorted(("" if p == "." else p) for p, k in ver.items() if k == "directory")
@@ -328,9 +363,20 @@ def gen_op(rng, listing, disk):
     disk_all = [p for p, k in disk]
     unver = [p for p in disk_all if p not in ver]
 
+    on_disk = set(disk_all)
+    # names that were versioned earlier and are free now (a renamed directory, the last
+    # file moved out of a directory, ...): reused on purpose
+    free = sorted(p for p in vacated if p not in ver and p not in on_disk and
+                  (("/" not in p) or p.rsplit("/", 1)[0] in on_disk))
+
     def child(d):
         n = rng.choice(NAMES)
         return (d + "/" + n) if d else n
+
+    def target(d):
+        if free and rng.random() < 0.4:
+            return rng.choice(free)
+        return child(d)
 
     def shallow(ds):
         ds = [d for d in ds if d.count("/") < 2]
@@ -345,11 +391,11 @@ def gen_op(rng, listing, disk):
             ("rename", rng.choice(unver) if unver else "zz", child("")),
         ])
     k = rng.choices(["mkfile", "mkdir", "add", "remove", "rename", "move", "write", "chmod", "commit", "revert", "reopen"],
-                    [14, 9, 16, 9, 12, 6, 8, 4, 8, 5, 7])[0]
+                    [14, 9, 16, 9, 14, 7, 8, 4, 8, 5, 5])[0]
     if k == "mkfile":
-        return ("mkfile", child(shallow(disk_dirs)), rng.choice(CONTENTS))
+        return ("mkfile", target(shallow(disk_dirs)), rng.choice(CONTENTS))
     if k == "mkdir":
-        return ("mkdir", child(shallow(ver_dirs if rng.random() < 0.85 else disk_dirs)))
+        return ("mkdir", target(shallow(ver_dirs if rng.random() < 0.85 else disk_dirs)))
     if k == "add":
         if unver and rng.random() < 0.85:
             return ("add", rng.choice(unver))
@@ -363,10 +409,16 @@ def gen_op(rng, listing, disk):
             return ("mkfile", child(""), "x")
         a = rng.choice(ver_paths)
         d = shallow(ver_dirs if rng.random() < 0.85 else disk_dirs)
-        return ("rename", a, child(d))
+        return ("rename", a, target(d))
     if k == "move":
         if not ver_paths:
             return ("mkfile", child(""), "x")
+        if free and rng.random() < 0.3:
+            # move something to where a freed name was (its parent directory)
+            f = rng.choice(free)
+            cands = [p for p in ver_paths if p.rsplit("/", 1)[-1] == f.rsplit("/", 1)[-1]]
+            if cands:
+                return ("move", rng.choice(cands), f.rsplit("/", 1)[0] if "/" in f else "")
         return ("move", rng.choice(ver_paths), shallow(ver_dirs if rng.random() < 0.9 else disk_dirs))
     if k == "write":
         return ("write", rng.choice(disk_files), rng.choice(CONTENTS)) if disk_files else ("mkfile", child(""), "y")
@@ -398,6 +450,8 @@ def run_real(fmt, ops=None, rng=None, length=0, gen=True):
         prev_status = status_bzr(r.changes())
         i = 0
         skipped = 0
+        known = {"."}
+        vacated = set()
         while True:
             if ops is not None:
                 if i >= len(ops):
@@ -406,7 +460,7 @@ def run_real(fmt, ops=None, rng=None, length=0, gen=True):
             else:
                 if i >= length:
                     break
-                op = gen_op(rng, listing, disk)
+                op = gen_op(rng, listing, disk, vacated)
                 if op[0] == "revert" and risky_revert(listing, committed, disk):
                     op = ("reopen",)
             i += 1
@@ -492,6 +546,35 @@ def run_real(fmt, ops=None, rng=None, length=0, gen=True):
                     fam = "git-status-reports-root-renamed-to-directory"
                 problems.append((where, "status says %r, the listings differ by %r" % (
                     sorted(set(got) - set(exp))[:4], sorted(set(exp) - set(got))[:4]), "status-sound-complete", fam))
+            # every query agrees with all_versioned_paths, on the live object and after re-opening
+            for l in listing + new_listing:
+                known.add(l.split("|")[0])
+            for q, k in disk + new_disk:
+                known.add(q)
+            for a in op[1:3]:
+                if isinstance(a, str) and a and not a.startswith("zz") and len(a) < 40 and op[0] not in ("mkfile", "write"):
+                    known.add(a)
+            if op[0] in ("mkfile", "write"):
+                known.add(op[1])
+            for q in list(known):
+                known.update(_prefixes(q))
+            vnow = {l.split("|")[0]: l.split("|")[1] for l in new_listing}
+            for l in listing:
+                if l.split("|")[0] not in vnow:
+                    vacated.add(l.split("|")[0])
+            kp = sorted(known)
+            live = r.queries(kp)
+            fresh = r.queries(kp, fresh=True)
+            bad_live = [(q, live[q]) for q in kp if live[q][:2] != (q in vnow, q in vnow) or
+                        (q in vnow and live[q][2] != vnow[q] and not vnow[q].startswith("!"))]
+            bad_fresh = [(q, live[q], fresh[q]) for q in kp if live[q] != fresh[q]]
+            if bad_fresh:
+                fam = None
+                problems.append((where, "the live tree object and a freshly opened tree disagree on (is_versioned, path2id, kind): %r" % (
+                    [(q, "live=%r" % (a,), "reopened=%r" % (b,)) for q, a, b in bad_fresh[:3]],), "reopen-query", fam))
+            elif bad_live:
+                problems.append((where, "is_versioned / path2id / stored_kind disagree with all_versioned_paths: %r (versioned: %r)" % (
+                    bad_live[:3], sorted(vnow)), "query-consistency", None))
             steps.append("%s@%s@%s" % ("ok" if res == "ok" else "err", ";".join(new_listing) or "-", ";".join(st) or "-"))
             done.append((list(op), res))
             listing, disk, prev_status = new_listing, new_disk, sb
